@@ -573,6 +573,12 @@ type spyWriter struct {
 }
 
 func (s *spyWriter) Write(p []byte) (int, error) {
+	// a peer that takes the bytes late: other goroutines run (and pack) while this Write holds the frame
+	if len(p)%4 == 1 {
+		for k := 0; k < 3; k++ {
+			runtime.Gosched()
+		}
+	}
 	s.buf.Write(p)
 	if cap(p) > 0 {
 		s.share.mu.Lock()
